@@ -257,6 +257,10 @@ GRAPHABLE = {"polar", "expm", "logm", "logm_expm", "svd", "sqrtm", "block", "blo
 @st.composite
 def prim_case(draw, conn):
     names = [n for n, (conns, _, _) in PRIMS.items() if conn in conns]
+    # not implemented by the connector (NotImplementedError): drawn rarely, counted
+    missing = {"tf": ["permanent", "hafnian", "loop_hafnian"], "jax": ["hafnian"]}[conn]
+    if draw(st.integers(0, 24)) != 0:
+        names = [n for n in names if n not in missing]
     name = draw(st.sampled_from(names))
     _, kinds, sizes = PRIMS[name]
     case = {"prim": name, "conn": conn, "kind": draw(st.sampled_from(kinds)),
@@ -331,7 +335,7 @@ def run_primitive(case, ctx, make_connector, to_numpy):
             return jax.jit(f)
         import tensorflow as tf
 
-        return tf.function(f, jit_compile=False)
+        return tf.function(f, jit_compile=False, autograph=False)
 
     checks = []  # (clause, got, want)
 
@@ -453,7 +457,7 @@ def p_schur(case, C, NC, nat, wrap, eq, tn):
         # tensorflow_/connector.py: "Lazy Schur decomposition, only works for normal
         # matrices"; it is only ever handed the complex unitary symmetric Z of takagi()
         if not is_normal(kind):
-            raise Skip("schur:non-normal-input")
+            raise Skip("non-normal-input")
         m = m.astype(complex)
     t, z = (tn(x) for x in wrap(C.schur)(nat(m)))
     eq("reconstruction", z @ t @ _herm(z), m)
@@ -468,6 +472,10 @@ def p_schur(case, C, NC, nat, wrap, eq, tn):
 
 def p_sqrtm(case, C, NC, nat, wrap, eq, tn):
     m = gen_matrix(case["kind"], case["n"], case["seed"])
+    if case["conn"] == "tf" and case["kind"] in ("psd_singular", "zero"):
+        # tf.linalg.sqrtm documents "the input matrix should be invertible" (returns NaN
+        # otherwise); TensorflowConnector.sqrtm is only fed A A^dagger of invertible A
+        raise Skip("singular-input")
     got = tn(wrap(C.sqrtm)(nat(m)))
     eq("square", got @ got, m)
     if case["kind"] not in ("psd_singular", "zero"):
@@ -498,7 +506,7 @@ def p_assign(case, C, NC, nat, wrap, eq, tn):
     if case["conn"] == "tf" and form in ("tuple", "ix", "modes"):
         # tensorflow_/connector.py: "This method is very limited"; only int and integer-
         # array indices are implemented and only those are used with TensorFlow
-        raise Skip(f"assign:{form}")
+        raise Skip(f"index-form-{form}")
     if form == "int":
         arr, idx, val = _c(rng, n + 2), int(rng.integers(0, n + 2)), complex(_c(rng, 1)[0])
     elif form == "index_matrix":
@@ -555,7 +563,7 @@ def p_embed(case, C, NC, nat, wrap, eq, tn):
         idx = get_operator_index(modes)
     else:
         if case["conn"] == "tf":
-            raise Skip("embed_in_identity:ix")  # TF is only used with get_operator_index
+            raise Skip("index-form-ix")  # TF is only used with get_operator_index
         idx = np.ix_(modes, modes)
     want = np.eye(dim, dtype=complex)
     want[np.ix_(modes, modes)] = m
@@ -660,7 +668,10 @@ def p_fock_rep(case, C, NC, nat, wrap, eq, tn):
     d, cutoff = case["n"], case["cutoff"]
     u = gen_matrix(case["kind"], d, case["seed"]).astype(complex)
     helper = calculate_interferometer_helper_indices(d, cutoff)
-    got = wrap(lambda a: C.calculate_interferometer_on_fock_space(a, helper))(nat(u))
+    # TensorFlow eager mode: the forward pass runs on NumPy arrays (custom gradients), the
+    # simulator converts the matrix with preprocess_input_for_custom_gradient first
+    arg = u if (case["conn"] == "tf" and not case.get("graph")) else nat(u)
+    got = wrap(lambda a: C.calculate_interferometer_on_fock_space(a, helper))(arg)
     want = NC.calculate_interferometer_on_fock_space(u, helper)
     basis = [tuple(int(x) for x in r) for r in get_fock_space_basis(d, cutoff)]
     for k in range(min(cutoff, len(want))):
